@@ -585,7 +585,7 @@ class Engine:
                 elif depth_ == 0 and inner.startswith(' as ', j_):
                     cut_ = j_
                     break
-            if cut_ is not None:
+            if cut_ is not None and not inner.startswith('dyn '):     # dyn receivers dispatch on the runtime type
                 hit = self.find_impl(inner[:cut_], inner[cut_ + 4:], m.group(3))
                 if hit is not None:
                     return hit
@@ -1021,6 +1021,16 @@ class Engine:
             mm = pat.match(s)
             if mm:
                 return fn(self, mm)
+        ma = re.match(r'^\{(alloc\d+): &', s)
+        if ma:
+            # a reference to the memory of a named static item
+            for (crate_, an), sname in mirparse.ALLOC_STATICS.items():
+                if an == ma.group(1) and (f is None or crate_ == getattr(f, 'crate', crate_)):
+                    sfn = self.resolve(sname)
+                    if sfn is not None and self.funcs[sfn].kind == 'static':
+                        if sfn not in self.statics:
+                            self.statics[sfn] = Cell(self.run(self.funcs[sfn], []), 'static')
+                        return Ref(self.statics[sfn])
         fn = self.resolve(s)
         if fn is not None:
             fobj = self.funcs[fn]
@@ -1540,6 +1550,8 @@ class Engine:
             tup = args[1] if len(args) > 1 else Struct('()', [])
             return self.call_value(fv, list(tup.fields) if isinstance(tup, Struct) else [tup], fr, dty)
         tn = self.type_name_of(args[0], fr)
+        if self.env.get('dyn_call') is not None and isinstance(self.deref(args[0], fr), Opaque):
+            tn = None          # an opaque receiver has no runtime type: the harness decides
         if tn is None:
             hook = self.env.get('dyn_call')
             if hook is not None:
